@@ -213,13 +213,20 @@ class C08(Property):
         'warm starts on real runs (x0 = solution / initial state of another composition, array or dict; root and _solve): oracle kind warm; that the '
         'parameter vector is init_concs ++ constants whatever x0 is: correspondence op root_args (stand-in solver capturing the real call) tied to the '
         'model function rootArgs, about which warm_start_keeps_initial_totals is a theorem',
-        'reduction configurations rref_equil x rref_preserv (sympy row reduction via pyneqsys; fractional exponents for non-unit pivot coefficients): no Lean '
-        'model (C07 models rref=False only); covered by solver runs on the pivot family (dimerisations, 2:1 / 3:2 / 2:2 complexes, pivot species first) '
+        'reduction configurations rref_equil x rref_preserv (sympy row reduction via pyneqsys; fractional exponents for non-unit pivot coefficients): C07 now has '
+        'rref_zero_iff_lin/log/square, but C08 does not compose with them (zero_residual_and_sane_is_genuine covers rref=False, Lin and Log only); covered by solver runs on the pivot family (dimerisations, 2:1 / 3:2 / 2:2 complexes, pivot species first) '
         'under every configuration and chain with the genuineness oracle, and by the structural stages oracle comparing the residual the solver sees with '
         'an independent evaluation of the row-reduced equations (exact rational exponents)',
         'EqCalcResult.solve / _solve bookkeeping (recorded success, sane, conc, nfev equal those of the underlying _solve; a failed root finding is '
         'warned about and never recorded as success) and roots(..., plot_kwargs=...) (same numbers as without plotting, ValueError for contradictory '
         'plot arguments): oracle kinds calc / roots_plot, no model (driver plumbing around pyneqsys / matplotlib)',
+        'precipitation x reduction configuration x under-/super-saturated starts on real runs: oracle only (family saltrref); on the pinned tree NumSysLin + '
+        'rref_equil with a switched-off solid yields a NaN residual reported as success (open finding nan-residual-reported-as-success)',
+        'the epsilon-version of zero_residual_and_sane_is_genuine (|residual| <= eps => |Q/K - 1| <= eps, totals within eps), which would tie the oracle tolerances '
+        'to a theorem, is NOT proved: the exact-zero hypothesis is met by no real run (review 2-F top-1, left undone); hon/hoff of precipitate_dichotomy are '
+        'assumptions, not derived from the C07 residual rows (review 2-F top-2, left undone)',
+        '_result_is_sane on non-finite entries: NaN passes both tests (theorem sane_accepts_nan_defect_witness, correspondence op sane_nan); sane => non-negative '
+        'therefore holds only for NaN-free results; fw_cond/bw_cond ignore the parameter vector p and read rxn.param (correspondence passes a junk p)',
         'the default tolerances rtol=1e-9 / 1e-14 are model constants tied to the source by correspondence buckets (sane:default-*, fw:default-*), not extracted',
     )
     anchors = (
@@ -357,7 +364,7 @@ class C08(Property):
         n_solver = max(60, n // 5)
         n_craft = n - n_solver
         ops = ['ucb', 'sane', 'sane', 'sane', 'precip_stoich', 'dissolved', 'dissolved', 'fw', 'fw', 'bw', 'ptidx', 'nonprecip',
-               'quotient', 'rc_interval', 'rc_interval', 'bracket', 'residual', 'net_stoich', 'varied', 'varied', 'root_args', 'quotient_rows', 'residual_act', 'residual_multi']
+               'quotient', 'rc_interval', 'rc_interval', 'bracket', 'residual', 'net_stoich', 'varied', 'varied', 'root_args', 'quotient_rows', 'residual_act', 'residual_multi', 'sane_nan', 'dissolved_int']
         for i in range(n_craft):
             cases.append(self._gen_crafted(rng, ops[i % len(ops)]))
         cases.extend(self._gen_solver(rng, n_solver))
@@ -485,6 +492,18 @@ class C08(Property):
             if rng.random() < 0.3:       # history: the callback is created while the reaction has another constant, which is then changed in place
                 c['k_first'] = rj(k * F(rng.choice([1, 3, 1000]), rng.choice([1, 7, 1000])))
             return c
+        if op == 'sane_nan':           # float results with NaN entries: both comparisons of _result_is_sane are False for NaN
+            base = self._gen_crafted(rng, 'sane')
+            while base['mode'].startswith('mismatch'):
+                base = self._gen_crafted(rng, 'sane')
+            x = list(base['x'])
+            for j in rng.sample(range(len(x)), rng.randint(1, len(x))):
+                x[j] = None
+            base.update(op='sane_nan', x=x, mode='nan:' + base['mode'])
+            return base
+        if op == 'dissolved_int':      # integer numpy array: the in-place update cannot be cast back
+            phases, rxns = self._gen_system(rng)
+            return {'op': 'dissolved_int', 'phases': phases, 'rxns': rxns, 'c': [rng.randint(0, 9) for _ in phases]}
         if op == 'quotient_rows':       # 2-d concs: one state per row (float arrays in numpy: dyadic values, powers stay exact)
             nrow, n = rng.randint(1, 4), rng.randint(1, 4)
             concs = [[rj(F(2) ** rng.randint(-3, 3) * rng.choice([1, 1, 3])) for _ in range(n)] for _ in range(nrow)]
@@ -929,7 +948,7 @@ class C08(Property):
         if not c.get('op'):
             return None
         drop = {'mode', 'balanced', 'at_equilibrium'}      # k_first stays: impl needs it, the driver ignores unknown fields
-        if c['op'] not in ('ucb', 'sane'):
+        if c['op'] not in ('ucb', 'sane', 'sane_nan'):
             drop.add('comps')
         return {k: v for k, v in c.items() if k not in drop}
 
@@ -976,9 +995,20 @@ class C08(Property):
                     fw = es._fw_cond_factory(c['ri'], rtol=_fr(c['rtol'])) if 'rtol' in c else es._fw_cond_factory(c['ri'])
                     for r_ in es.rxns:                   # constants changed in place after the callback was made: the current ones count
                         r_.param = _fr(c['k'])
-                    return str(bool(fw(obj(c['x']), None)))
+                    return str(bool(fw(obj(c['x']), [F(7, 3)] * (len(c['x']) + len(c['rxns'])))))      # `p` is ignored by the callback
                 if op == 'varied':
                     return self._varied_impl(c)
+                if op == 'sane_nan':
+                    es = self._build([0] * len(c['comps']), [], c['comps'])
+                    kw = {'rtol': float(_fr(c['rtol']))} if 'rtol' in c else {}
+                    x = np.array([float('nan') if v is None else float(_fr(v)) for v in c['x']])
+                    return str(bool(es._result_is_sane(np.array([float(v) for v in _frl(c['init'])]), x, **kw)))
+                if op == 'dissolved_int':
+                    es = self._build(c['phases'], c['rxns'])
+                    try:
+                        return show_int_list(es.dissolved(np.array(c['c'], dtype=int)))
+                    except TypeError:          # numpy's UFuncTypeError is a TypeError
+                        return 'TypeError'
                 if op == 'quotient_rows':
                     a2 = np.array([[float(_fr(v)) for v in row] for row in c['concs']], dtype=float).reshape(len(c['concs']), -1)
                     if a2.shape[0] == 0:
@@ -1187,6 +1217,20 @@ class C08(Property):
                 return 'lower end %s of the bracket is not the largest feasible one' % lo
             if any(s < 0 for s in stoich) and all(a + s * (up + F(1, 10 ** 6)) >= 0 for a, s in zip(c0, stoich)):
                 return 'upper end %s of the bracket is not the largest feasible one' % up
+        elif op == 'sane_nan':
+            comps, init = c['comps'], _frl(c['init'])
+            if len(c['x']) != len(init) or any(v == 0 for comp in comps for k, v in comp if k != 0):
+                return None
+            ub = self._ub_exact(comps, init)
+            rtol = _fr(c['rtol']) if 'rtol' in c else F(1, 10 ** 9)
+            fin = [(None if v is None else _fr(v)) for v in c['x']]
+            # what the code does (recorded defect, theorem sane_accepts_nan_defect_witness): NaN entries are ignored by both tests
+            want = all(v is None or v >= 0 for v in fin) and all(v is None or b is None or v <= b * (1 + rtol) for v, b in zip(fin, ub))
+            es = self._build([0] * len(comps), [], comps)
+            kw = {'rtol': float(rtol)} if 'rtol' in c else {}
+            got = bool(es._result_is_sane(np.array([float(v) for v in init]), np.array([float('nan') if v is None else float(v) for v in fin]), **kw))
+            if got != want:
+                return '_result_is_sane=%s on %s: the finite entries %s the two tests' % (got, c['x'], 'pass' if want else 'fail')
         elif op == 'quotient_rows':
             st = c['stoich']
             rows = [_frl(r) for r in c['concs']]
@@ -1764,7 +1808,7 @@ class C08(Property):
     def classify(self, c):
         if c.get('op'):
             op = c['op']
-            if op in ('sane', 'fw'):
+            if op in ('sane', 'fw', 'sane_nan'):
                 return '%s:%s' % (op, c.get('mode', 'corpus'))
             if op == 'dissolved':
                 return 'dissolved:' + ('balanced-salts' if c.get('balanced') else 'random')
